@@ -11,7 +11,11 @@ def run_contract(module, attr, native_name, tier):
     obs = verify_contract(c)
     bad = [o for o in obs if o.status in ('refuted', 'unknown') and o.kind not in ('cover', 'canary')]
     outside = [o for o in obs if o.status == 'outside']
-    native = getattr(M, 'NATIVE', {}).get(native_name) if native_name else None
+    if native_name and ':' in native_name:
+        nm, nn = native_name.split(':', 1)
+        native = importlib.import_module(nm).NATIVE.get(nn)
+    else:
+        native = getattr(M, 'NATIVE', {}).get(native_name) if native_name else None
     if outside:
         # the edited function left the subset: downgrade to the bounded check of the same contract (never an alarm by itself)
         o = outside[0]
@@ -41,3 +45,17 @@ def run_contract(module, attr, native_name, tier):
         elif o.status == 'refuted':
             pass        # semantic obligation refuted, no concrete input: VIOLATION ... no-failing-input-found
     return obs
+
+
+def run_frame(module_file, funcpath, ident, allowed=()):
+    """syntactic frame / purity obligations on the real source"""
+    import os
+    from lib.common import REPO
+    from vc.frame import frame_obligations
+    src = open(os.path.join(REPO, 'mpyc', module_file)).read()
+    return frame_obligations(src, funcpath, ident, allowed_attr_writes=allowed)
+
+
+def run_lean(theorems, tier):
+    from lib.leancheck import lean_obs
+    return lean_obs([tuple(t) for t in theorems], tier)
